@@ -7,7 +7,7 @@ From Coq Require Import Permutation.
 From SC Require Import Base.Prelude Router.Registry Router.RegistryProofs Router.RouterGet Router.RouterGetProofs
   Router.RouterCb Router.RouterCbProofs Router.RegistryW Router.RegistryWProofs
   Router.Pump Router.PumpProofs Router.NameDefault Router.NameDefaultProofs Router.NameTree Router.NameTreeProofs Router.Table Router.TableProofs Gen.Routers
-  Router.Route Router.C12Judge Router.C12JudgeProofs.
+  Router.Route Router.RouteW Router.RouteWProofs Router.C12Judge Router.C12JudgeProofs.
 
 (* The registry is a map: for every operation sequence (Add/Remove/Has/Get with fallback and
    factory) results equal those of a plain functional map, whose final contents, change log and
@@ -201,18 +201,130 @@ Theorem C12_get_is_getW : forall g n s, 0 < snext s ->
 Proof. exact get_is_getW. Qed.
 Print Assumptions C12_get_is_getW.
 
-(* the judge on these cases: agreement with the model implies the property predicate
-   (for KHist/KSched the predicate is proved of the model's own output: C12_judge_sound) *)
-Theorem C12_judge_agrees_ok_partial : forall c,
-  match c with KRegW _ _ _ _ | KDefault _ _ _ | KDefaultStream _ _ _ _ => True | _ => False end ->
-  agrees c = true -> C12_ok c = true.
+(* ---- the whole lookup chain router.Get -> GetXxxClient -> generated method (RouteW.v) ---- *)
+
+(* router.Get has named results (child, err) assigned by three statements; invoke() hands the
+   Factory's value back even when it judges the call a miss.  Whatever the fallback and the factory
+   return -- nil,nil / nil,err / a client TOGETHER WITH an error / a client -- and whichever options
+   the router was built with, Get's two results are exactly (client, nil) or (nil, NotFound name),
+   as summarised by RegistryW.getW: nothing left over in the variables escapes. *)
+Theorem C12_get_results_clean : forall o n fbo fao s,
+  get_full o n fbo fao s =
+  let '(s', WR r k1 k2) := getW o n fbo fao s in (s', results_of r, k1, k2).
+Proof. exact get_full_is_getW. Qed.
+Print Assumptions C12_get_results_clean.
+
+(* Every history on a generated router -- typed Add (refuses nil) / Remove / Has, Router.Get,
+   GetXxxClient, unary and server-streaming methods; any option subset; every lookup with its own
+   fallback and factory outcome: the results (BOTH results of every Get, who was called with which
+   request, the caller's transcript, the numbers of fallback and factory calls), the registry
+   contents and the change log equal those of the plain functional map in which a Factory result
+   counts as a client iff it is a non-nil value without an error. *)
+Theorem C12_routeW_is_map : forall o fe ae ops,
+  snd (xrun o fe ae (init 1) ops) = snd (prunX o (mkP pempty [] 1) ops) /\
+  (forall k, find k (sreg (fst (xrun o fe ae (init 1) ops))) = pm (fst (prunX o (mkP pempty [] 1) ops)) k) /\
+  slog (fst (xrun o fe ae (init 1) ops)) = plog (fst (prunX o (mkP pempty [] 1) ops)).
 Proof.
-  intros c Hc. destruct c; try contradiction.
-  - apply judge_agrees_ok_regw.
-  - apply judge_agrees_ok_default.
-  - apply judge_agrees_ok_default_stream.
+  intros o fe ae ops. destruct (routeW_is_map o fe ae ops _ _ RW_init NN_init) as [H1 [[H2 H3] _]]. auto.
+Qed.
+Print Assumptions C12_routeW_is_map.
+
+(* "a name with no client yields NotFound and touches no client", for every consumer of Get and
+   every fallback/factory outcome: when neither the registry nor a configured fallback nor a
+   configured factory yields a client (a client returned next to an error is not one), Router.Get
+   and GetXxxClient return (nil, NotFound), every method answers NotFound having called nobody,
+   and the router is unchanged. *)
+Theorem C12_routeW_notfound_touches_nothing : forall o fe ae s n fbo fao,
+  find n (sreg s) = None ->
+  (if w_fb o then yields fbo else None) = None ->
+  (if w_fac o then yields fao else None) = None ->
+  let k1 := if w_fb o then 1 else 0 in
+  let k2 := if w_fac o then 1 else 0 in
+  xstep o fe ae s (XGetRaw n fbo fao) = (s, XGot nil_client (Some (not_found_code, n)) k1 k2)
+  /\ xstep o fe ae s (XGetTyped n fbo fao) = (s, XGot nil_client (Some (not_found_code, n)) k1 k2)
+  /\ (forall u, xstep o fe ae s (XUnary n fbo fao u) = (s, XCalled [] (not_found_tr n) k1 k2))
+  /\ (forall c k, xstep o fe ae s (XStream n fbo fao c k) = (s, XCalled [] (not_found_tr n) k1 k2)).
+Proof. exact routeW_notfound_touches_nothing. Qed.
+Print Assumptions C12_routeW_notfound_touches_nothing.
+
+(* the hypotheses are satisfiable by the interesting input: a factory that returns client 7 TOGETHER
+   WITH an error (and a fallback that does the same with client 8) *)
+Example C12_routeW_notfound_nonvacuous :
+  find "bad"%string (sreg (init 1)) = None /\
+  (if w_fb (mkW true true true) then yields (FBoth 8) else None) = None /\
+  (if w_fac (mkW true true true) then yields (FBoth 7) else None) = None /\
+  snd (xrun (mkW true true true) (14, "down"%string) (2, "refused"%string) (init 1)
+         [XAdd "good" 3; XUnary "bad" (FBoth 8) (FBoth 7) (UResp 1); XGetTyped "bad" FNil (FBoth 7); XUnary "good" FNil FNil (UResp 1)]%string)
+  = [XR (RClient 0); XCalled [] (not_found_tr "bad"%string) 1 1; XGot 0 (Some (5, "bad"%string)) 1 1;
+     XCalled [(3, true, true)] (unary (UResp 1)) 0 0].
+Proof. repeat split. Qed.
+
+(* forwarded exactly once to the client the map yields, with the forwarder's transcript *)
+Theorem C12_routeW_forwards_once : forall o fe ae s n fbo fao c s' k1 k2,
+  c <> nil_client ->
+  getW o n fbo fao s = (s', WR (RGet (Got c)) k1 k2) ->
+  xstep o fe ae s (XGetTyped n fbo fao) = (s', XGot c None k1 k2)
+  /\ (forall u, xstep o fe ae s (XUnary n fbo fao u) = (s', XCalled [(c, true, true)] (unary u) k1 k2))
+  /\ (forall ch k, xstep o fe ae s (XStream n fbo fao ch k) = (s', XCalled [(c, true, true)] (pump ch k) k1 k2)).
+Proof. exact routeW_forwards_once. Qed.
+Print Assumptions C12_routeW_forwards_once.
+
+(* no generated method ever calls a nil client *)
+Theorem C12_routeW_no_nil_deref : forall o fe ae ops, ~ In XNilDeref (snd (xrun o fe ae (init 1) ops)).
+Proof. exact routeW_no_nil_deref. Qed.
+Print Assumptions C12_routeW_no_nil_deref.
+
+(* the judge's predicate on these cases holds of the model on every history *)
+Theorem C12_judge_sound_routew : forall o fe ae ops,
+  C12_ok (KRouteW o fe ae ops (snd (xrun o fe ae (init 1) ops)) (wlog o (fst (xrun o fe ae (init 1) ops)))) = true.
+Proof. exact judge_sound_routew. Qed.
+Print Assumptions C12_judge_sound_routew.
+
+(* the judge: agreement with the model implies the property predicate (boolean equalities reflect
+   equality), under the guard (sequence/session cases: every message type has at most one field
+   called "name"; every other kind: no hypothesis), for router histories (both kinds),
+   option-subset registries, single requests, request sequences and stream sessions.
+   Missing: KSched/KSchedCb, where the predicate is proved of the model's own runs only
+   (C12_single_factory_commit, C12_callbacks_are_transitions). *)
+Theorem C12_judge_agrees_ok_partial : forall c,
+  match c with KSched _ _ _ _ _ _ _ _ | KSchedCb _ _ _ _ _ _ _ _ => False | _ => True end ->
+  agrees c = true -> C12_guard c = true -> C12_ok c = true.
+Proof.
+  intros c Hc Ha Hg. destruct c; try contradiction.
+  - apply judge_agrees_ok_hist; assumption.
+  - apply judge_agrees_ok_regw; assumption.
+  - apply judge_agrees_ok_routew; assumption.
+  - apply judge_agrees_ok_default; assumption.
+  - apply judge_agrees_ok_default_stream; assumption.
+  - apply judge_agrees_ok_seq; assumption.
+  - apply judge_agrees_ok_session; assumption.
 Qed.
 Print Assumptions C12_judge_agrees_ok_partial.
+
+(* the guard is satisfiable by a non-trivial input (two types sharing a short name, name at
+   different numbers), and an OK verdict means the guard held *)
+Example C12_judge_guard_nonvacuous :
+  C12_guard (KDefaultSeq "d" [(0, mkT "a.T" [mkF 1 "name" FString; mkF 2 "zone" FString], [(1, ""); (2, "")]);
+                              (1, mkT "b.T" [mkF 1 "zone" FString; mkF 2 "name" FString], [(1, ""); (2, " ")])]%string
+                         [[(1, "d"); (2, "")]; [(1, ""); (2, " ")]]%string) = true
+  /\ judge (KDefaultSeq "d" [(0, mkT "a.T" [mkF 1 "name" FString; mkF 2 "zone" FString], [(1, ""); (2, "")]);
+                              (1, mkT "b.T" [mkF 1 "zone" FString; mkF 2 "name" FString], [(1, ""); (2, " ")])]%string
+                         [[(1, "d"); (2, "")]; [(1, ""); (2, " ")]]%string) = 0.
+Proof. split; vm_compute; reflexivity. Qed.
+Theorem C12_judge_ok_means_guard : forall c, judge c = 0 -> C12_guard c = true /\ agrees c = true /\ C12_ok c = true.
+Proof.
+  intros c. unfold judge. destruct (C12_guard c); [|discriminate].
+  unfold verdict. destruct (agrees c), (C12_ok c); try discriminate; auto.
+Qed.
+Print Assumptions C12_judge_ok_means_guard.
+
+(* blank is not empty: a name of white space only (" ", tab, U+00A0 as bytes) is left alone *)
+Example C12_default_name_blank_not_empty :
+  unary_interceptor "dflt" (mkReq (NameString " ") 7) = mkReq (NameString " ") 7 /\
+  unary_interceptor "dflt" (mkReq (NameString (bytes_str [9])) 7) = mkReq (NameString (bytes_str [9])) 7 /\
+  unary_interceptor "dflt" (mkReq (NameString (bytes_str [194; 160])) 7) = mkReq (NameString (bytes_str [194; 160])) 7 /\
+  unary_interceptor "dflt" (mkReq (NameString "") 7) = mkReq (NameString "dflt") 7.
+Proof. repeat split. Qed.
 
 (* the stream pump is transparent: for every child script (k messages, header, trailer, error at
    any position, failure to open) the caller's transcript is the child's *)
